@@ -193,6 +193,58 @@ def _check_item_blocks(it, item, cfg, inzip, where, admin):
     return fails
 
 
+def _after_expiry(case, root, dsel, pre, ctx):
+    """With the directory cache on: the listing is cached, a sidecar is rewritten in place (the directory's own mtime does not
+    move), the lifetime passes on the server's clock: the '$' listing must carry the new sidecar text."""
+    import os
+    import pygopherd.handlers.dir as hdir
+    target = next((it for it in case["items"] if it["side"] and it["kind"] != "dir" and not it.get("override")), None)
+    if target is None:
+        return []
+    ext = sorted(target["side"])[0]
+    block = dict(EA)[ext]
+    ddir = os.path.join(os.fsencode(root), world.b(pre + "d"))
+    path = os.path.join(ddir, world.b(target["name"] + ext))
+    cfg = drive.make_config(root, "shipped", abstract_entries="never", abstract_headers="off",
+                            **{"handlers.dir.DirHandler::cachetime": "100", "handlers.UMN.UMNDirHandler::extstrip": case["extstrip"]})
+    real = hdir.time
+    offset = [0]
+
+    class _Clock:
+        def time(self):
+            return real.time() + offset[0]
+
+        def __getattr__(self, n):
+            return getattr(real, n)
+    hdir.time = _Clock()
+    try:
+        world.remove_caches(root)
+        os.utime(ddir, (world.MTIME, world.MTIME))  # the directory itself was last changed long ago
+        drive.serve(cfg, clients.encode("gdollar", world.b(dsel)))  # written into the cache
+        os.utime(ddir, (world.MTIME, world.MTIME))
+        with open(path, "wb") as f:  # rewritten in place
+            f.write(b"rewritten after the listing was cached\n")
+        os.utime(ddir, (world.MTIME, world.MTIME))
+        offset[0] = 1000
+        rd = drive.serve(cfg, clients.encode("gdollar", world.b(dsel)))
+        ctx.label("after-expiry")
+        pd = clients.parse_response("gdollar", rd.response)
+        if not pd.ok:
+            return [Fail("dollar-failed:after-expiry", "$ listing of %r after the lifetime failed: %r" % (dsel, rd.response[:100]))]
+        for item in _blocks(pd.body):
+            e = item.get("entry")
+            if e and e["target"] and e["target"][0] == "local" and e["target"][1] == world.b(dsel + "/" + target["name"]):
+                got = [l for b in item["blocks"] if b[0] == block for l in b[2]]
+                if got != [b" rewritten after the listing was cached"]:
+                    return [Fail("stale-block-after-expiry:%s" % block.decode(),
+                                 "$ %s item %s: the %s sidecar was rewritten in place and the cache lifetime has passed, yet +%s reads %r" % (
+                                     dsel, target["name"], ext, block.decode(), got[:2]))]
+        return []
+    finally:
+        hdir.time = real
+        world.remove_caches(root)
+
+
 def check_case(case, ctx):
     inzip = case["inzip"]
     if inzip:
@@ -274,6 +326,8 @@ def check_case(case, ctx):
                     fails.append(Fail("plus-nolength", "+ on plain file %r answered %s" % (selb, pq.status)))
                 elif pq.length != len(pq.body):
                     fails.append(Fail("plus-length", "+ on %r announced %d, sent %d bytes" % (selb, pq.length, len(pq.body))))
+        if not inzip and not fails:
+            fails += _after_expiry(case, root, dsel, pre, ctx)
         ctx.sample({"dir": dsel, "items": [{k: v for k, v in it.items() if k != "_len"} for it in case["items"]]}, cls=str(inzip))
         seen, out = set(), []
         for f in fails:
